@@ -171,3 +171,15 @@ def global_invariants():
         bad = cplx.I.tolist()
         cplx.I.copy_(cplx.I.new_tensor([0.0, 1.0]))      # restore so that the search can continue behind this finding
         raise PropertyViolation("global:shared-constant-cplx.I-changed", f"a library call changed the shared imaginary-unit constant cplx.I in place (now {bad})")
+    # process-wide numerical settings of torch that silently change every later result of the process (and of the user's own code)
+    import torch
+    if torch.get_default_dtype() != torch.float32:
+        bad = torch.get_default_dtype()
+        torch.set_default_dtype(torch.float32)
+        raise PropertyViolation("global:torch-default-dtype-changed", f"a library call changed torch's process-wide default dtype to {bad}")
+    if not torch.is_grad_enabled():
+        torch.set_grad_enabled(True)
+        raise PropertyViolation("global:torch-grad-mode-changed", "a library call left autograd disabled for the whole process")
+    if torch.are_deterministic_algorithms_enabled():
+        torch.use_deterministic_algorithms(False)
+        raise PropertyViolation("global:torch-deterministic-mode-changed", "a library call switched on torch's process-wide deterministic-algorithms mode")
